@@ -43,7 +43,7 @@ RULE = (
 ASSUMPTIONS = [
     "processing costs 0 virtual seconds: 'at most T of waiting in total' is checked as exact equality of the virtual elapsed time",
     "lock contention between threads (lock wait counted in the budget) is explored under C12's thread harness, not here",
-    "plain TCP never returns a short read while more is queued; the TLS-like short-read transport is a separate configuration",
+    "plain TCP never returns a short read while more is queued; the TLS-like short-read transport is a separate configuration, run both on an emulated short-read socket and on the REAL blocking SSLStreamTransport against a stdlib peer (mc/tlsrig.py)",
 ]
 BOUNDS = {"quick": "<= 2 bursts for iterators, <= 3 bursts for single receives", "thorough": "same alphabet, spurious bound 3"}
 
@@ -314,7 +314,7 @@ def run_async_iter(cfg: dict) -> dict:
 
 def jobs(tier: str) -> list[dict]:
     parts = 48 if tier == "quick" else 96
-    return [{"part": p, "parts": parts, "tier": tier} for p in range(parts)] + [{"part": -1, "parts": 1, "tier": tier}]
+    return [{"part": p, "parts": parts, "tier": tier} for p in range(parts)] + [{"part": -1, "parts": 1, "tier": tier}] + real_tls_jobs(tier)
 
 
 def _key(cfg: dict, bad: str) -> str:
@@ -325,6 +325,9 @@ def _key(cfg: dict, bad: str) -> str:
 
 def run_job(job: dict) -> JobResult:
     res = JobResult()
+    if job["part"] == -2:
+        run_real_tls_job(res)
+        return res
     if job["part"] == -1:
         # asynchronous iterator: the budget is shared across packets (loop timing adds ~1 us per busy iteration: 1 ms tolerance)
         two = "ab\ncd\n"
@@ -384,7 +387,12 @@ def run_job(job: dict) -> JobResult:
 def replay(doc: dict) -> tuple[bool, str]:
     rp = doc["replay"]
     cfg = rp["cfg"]
-    cfg["sched"] = [tuple(x) for x in cfg["sched"]]
+    if "sched" in cfg:
+        cfg["sched"] = [tuple(x) for x in cfg["sched"]]
+    if rp.get("real_tls"):
+        obs = run_real_tls(cfg)
+        first = obs["events"][0] if obs["events"] else ("none",)
+        return not (first[0] == "P" and first[1] == "abc"), f"cfg={cfg}\nevents={obs['events']}"
     if rp.get("async"):
         obs = run_async_iter(cfg)
         return True, f"cfg={cfg}\nevents={obs['events']}"
@@ -392,3 +400,83 @@ def replay(doc: dict) -> tuple[bool, str]:
     obs = run_recv(ctx, cfg)
     bad = oracle(cfg, obs)
     return bad is not None, f"cfg={cfg}\nchoices={rp['choices']}\nevents={obs['events']}\nwaits={obs['waits']}\nexpected completion={completion_times(cfg)}\noracle: {bad}"
+
+
+# ---------------------------------------------------------------------------------------------------------
+# the same short-read configuration on the REAL blocking TLS transport (mc/tlsrig.py): the peer writes one packet as two
+# TLS records, both are in the kernel before recv_packet(timeout=T) is called
+
+
+def run_real_tls(cfg: dict) -> dict:
+    import math as _math
+
+    from easynetwork.lowlevel.api_sync.transports.socket import SSLStreamTransport
+
+    from .. import tlsrig
+
+    world = World(Ctx(), horizon=4000)
+    pieces = [b"ab", b"c\n"] if cfg["records"] == 2 else [b"abc\n"]
+    relay = tlsrig.make_peer_and_relay(cfg["version"], "client", script=[("write", p) for p in pieces])
+    link = tlsrig.BlockingLink(relay)
+    relay.link = link
+    world.env = relay.env
+    world.install_clock()
+    tr = None
+    events: list[tuple] = []
+    try:
+        tr = SSLStreamTransport(link.lib_sock, tlsrig.lib_context(cfg["version"], "client"), _math.inf, server_hostname=tlsrig.HOSTNAME,
+                                selector_factory=lambda: VSelector(world))
+        proto: Any = StreamProtocol(StringLineSerializer()) if cfg["subject"] == "ep-copy" else BufferedStreamProtocol(StringLineSerializer(limit=32))
+        ep = StreamEndpoint(tr, proto, max_recv_size=64)
+        for _ in range(6):
+            relay.drain()  # both records reach the kernel buffer of the library's socket
+        t0 = world.clock
+        for attempt in range(2):
+            try:
+                p = ep.recv_packet(timeout=cfg["T"])
+                events.append(("P", p, round(world.clock - t0, 6)))
+                break
+            except TimeoutError:
+                events.append(("timeout", round(world.clock - t0, 6)))
+    except (Deadlock, HorizonHit) as exc:
+        events.append((type(exc).__name__,))
+    except Exception as exc:  # noqa: BLE001
+        events.append(("error", type(exc).__name__, str(exc)[:80]))
+    finally:
+        world.restore_clock()
+        if tr is not None:
+            try:
+                tr.close()
+            except Exception:
+                pass
+        link.close()
+    return {"events": events}
+
+
+def real_tls_jobs(tier: str) -> list[dict]:
+    return [{"part": -2, "parts": 1, "tier": tier}]
+
+
+def run_real_tls_job(res: JobResult) -> None:
+    from .. import tlsrig
+
+    tlsrig.ensure_cert()
+    for version in tlsrig.VERSIONS:
+        for subject in ("ep-copy", "ep-buf"):
+            for records in (1, 2):
+                for T in (0, 0.3):
+                    cfg = {"subject": subject, "version": version, "records": records, "T": T}
+                    obs = run_real_tls(cfg)
+                    res.evaluations += 1
+                    first = obs["events"][0] if obs["events"] else ("none",)
+                    ok = first[0] == "P" and first[1] == "abc"
+                    res.nontrivial.add(digest(("real-tls", subject, version, records, T, tuple(e[0] for e in obs["events"]))))
+                    res.outcome("real-tls-ok" if ok else "VIOLATION:real-tls")
+                    if not ok:
+                        res.violations.append(Violation(
+                            f"tls-like-short-read/{subject}/T={T}/timeout-although-data-arrived-in-time",
+                            f"REAL SSLStreamTransport (TLS {version}), packet b'abc\\n' sent as {records} record(s), all in the kernel before the call: "
+                            f"recv_packet(timeout={T}) -> {obs['events']}",
+                            {"cfg": cfg, "choices": [], "real_tls": True},
+                        ))
+    res.samples.append({"part": "real blocking TLS transport", "packet": "abc\\n as 1 or 2 records already in the kernel", "timeouts": [0, 0.3]})
